@@ -65,6 +65,9 @@ class Net(object):
         self._step()
         if self.on_select:
             self.on_select(self)
+        if timeout is not None and timeout < 0:
+            # as the real select.select does
+            raise ValueError("timeout must be non-negative")
         ms = None if timeout is None else int(round(timeout * 1000))
         self._deliver_due()
         ready = [s for s in rlist if s.arrived]
